@@ -1,5 +1,5 @@
 from vdriver import Group
-META = {'level': 'other'}
+META = {'level': 'other', 'assumptions': ['group bucket.upsert: bucket_index_for is replaced by a harness stand-in that returns a harness-chosen constant satisfying its contract (none, or an index below 256); the contract itself is decided on the function body by group index.msb', 'std::deque is lowered to the vector model']}
 def replay(group, trace):
     """the REAL KademliaTable: a contact refreshed with a shorter deadline and a new address; the node's own id registered"""
     import sys, os
